@@ -92,6 +92,9 @@ func queueAlphabet(cfg histCfg, w *World) []histAnswer {
 		stray("stray-system-guid-reply-first", 0x06, 0x37, w.BMC.Cfg.SystemGUID[:]),
 		stray("stray-chassis-status-reply-first", 0x00, 0x01, w.BMC.Cfg.Chassis),
 		{Answer: env.LostReply(), Class: clsNothing},
+		// ordinary retry causes mixed with the socket events above
+		{Answer: env.Code("node-busy", 0xC0), Class: clsTemporary, Code: 0xC0},
+		{Answer: env.Answer{Name: "context-expires", Apply: func(t *env.Transport, rx *ref.Rx) { w.Cancel() }}, Class: clsExpire},
 	}
 }
 
@@ -176,6 +179,27 @@ func runC11(r *rep.R) {
 				kk := k
 				if !thorough(r) && inSess {
 					kk = 1
+				}
+				histExploreWith(r, "C11", cfg, kk, &idx, c11Judge)
+			}
+		}
+	}
+	// three events within one or two commands (busy reply, stray reply, context expiry in any order)
+	small := []int{opAuthCaps, opSystemGUID, opGetDeviceID, opPowerReading}
+	for _, inSess := range []bool{false, true} {
+		for _, a := range small {
+			for _, b := range small {
+				if a == b {
+					continue
+				}
+				ops := []int{a, b}
+				if inSess {
+					ops = append(ops, opClose)
+				}
+				cfg := histCfg{Suite: ref.Suite{Auth: 1, Integ: 1, Conf: 1}, InSession: inSess, Ops: ops, Horizon: 3, Alphabet: "queue"}
+				kk := 3
+				if !thorough(r) && inSess {
+					kk = 2
 				}
 				histExploreWith(r, "C11", cfg, kk, &idx, c11Judge)
 			}
